@@ -28,7 +28,7 @@ From ClapModel Require Import Complete.EngineAccept Complete.EngineFuel Complete
 From ClapModel Require ParseProofs.Chain ParseProofs.ActionsTop.
 From ClapModel Require Import Complete.EngineLine Complete.EnginePositional.
 From ClapModel Require ParseProofs.ChainWide.
-From ClapModel Require Import Complete.EngineItems Complete.EngineWide Complete.EngineHidden Complete.EngineOrder.
+From ClapModel Require Import Complete.EngineItems Complete.EngineWide Complete.EngineHidden Complete.EngineOrder Complete.EngineTerm.
 From Coq Require Import Permutation Sorted.
 From ClapModel Require Gen.EngineSites.
 From Coq Require Import ZArith.
@@ -576,8 +576,11 @@ Print Assumptions C18_escape_only_positionals_refuted.
 
     [item18]: C09's option items ([Chain.item]: `--flag`, `--opt=v`, `--opt v`, `-abc`, `-ov`, `-o v`) plus `-o=v` and
     multi-valued options `--opt v1 .. vk` / `-o v1 .. vk` with [k] = the maximum of the range, the values plain words that
-    are neither subcommand names nor the option's terminator ([value_tok]).  [pitems18 c pos pre F pos']: items and values
-    of single-valued positionals; [pos]/[pos'] the positional counter before and after.
+    are neither subcommand names nor the option's terminator ([value_tok]), and (round 5) `--opt v1 .. vj ;` / `-o v1 .. vj ;`
+    with [j] below the maximum followed by the option's value TERMINATOR.  [pitems18 c pos pre F pos']: items, values
+    of single-valued positionals and (round 5) the terminator of the positional at the counter, alone ([p18_term]) or behind
+    [k] values of that multi-valued positional ([p18_multi_term], [k] below the engine's [eng_num_args]); [pos]/[pos'] the
+    positional counter before and after.
     [body18 pc pre F pst pos est]: [pre] are the arguments of one level - options and values of single-valued
     positionals ([pitems18], the counter starts at 1), optionally followed by [k] values of a multi-valued
     positional [a] ([ChainWide.multi_vals], [k] below the engine's [eng_num_args a]); [F] is the parser's state
@@ -611,10 +614,13 @@ Theorem C18_values_agree : forall pc cur tok f a r vs, elevel pc cur ->
 Proof. exact values_agree. Qed.
 Print Assumptions C18_values_agree.
 
-(** a value TERMINATOR is unknown to the engine: `p --opt a ; <TAB>` (`--opt` takes 1..3 values, terminator `;`): the engine
-    stands in [Opt _ 3], the parser has closed the occurrence; `p --opt a ; sub <TAB>`: the parser accepts the line and is at
-    `sub`, the engine took `sub` for the third value, stays at `p`, offers `--opt` of `p`, and `p --opt a ; sub --opt` is
-    rejected with UnknownArgument (same on the real crate) *)
+(** VALUE TERMINATORS, finding C18-value-terminator, BEFORE / AFTER the repair (docs/pending/engine_value_terminator_fix.diff).
+    Option, `p(--opt <v>{1..3} terminator ";") -> sub(--so)`: the parser ACCEPTS `p --opt a ; sub` and is at `sub`.  Before: the
+    engine counted `;` as a value ([Opt _ 3] behind `p --opt a ;`), took `sub` for the third value, stayed at `p`, offered `--opt`
+    of `p`; `p --opt a ; sub --opt` is rejected with UnknownArgument.  After: [ValueDone] at `p` behind `;`, at `sub` behind
+    `sub`; `--so` is offered, `--opt` is not.  Positional, `p(--pf; <files>{1..} terminator ";") -> sub(--so)`, `p a ; sub`:
+    before [Pos _ 3] at `p`, `--pf` offered (UnknownArgument); after [ValueDone] at `sub`.  Same on the real crate
+    (corpus/C18/accept.value-terminator.cases) *)
 Theorem C18_terminator_before_after :
   (* option: the parser *)
   Term.chain_of (parse_top Term.c0 ([112] :: Term.line)) = Some [Term.w_sub] /\
@@ -641,6 +647,29 @@ Theorem C18_terminator_before_after :
   Term.has_cand (Term.dd Term.w_so) (IdArg Term.w_so) (complete_model [] Term.c1 ([112] :: Term.line1 ++ [[45; 45]]) 4) = true.
 Proof. exact terminator_before_after. Qed.
 Print Assumptions C18_terminator_before_after.
+
+(** ONE STEP ON THE TERMINATOR, both machines (repaired engine).  (1) an option [a] pending with any number of values:
+    both are back between arguments, nothing is pushed; (2) between arguments and (3) while the positional [a] at the counter
+    is being filled: both move the index / counter on and are back between arguments ([term_at]: the positional at the
+    counter, not [last], not [trailing_var_arg], no low-index multiples / [allow_missing_positional] on the level; [term_fn]:
+    the parser flushes the pending occurrence of another argument) *)
+Theorem C18_terminator_step_agreement : forall pc cur t, elevel pc cur -> ChainWide.plain_tok t ->
+  (forall a j pi evaf rest pos vaf st,
+     Chain.no_sub pc t -> find_arg pc (a_id a) = Some a -> check_terminator a t = true ->
+     shadow_step t cur pi false (Opt a j) evaf = SNext cur pi false ValueDone evaf /\
+     parse_loop pc (t :: rest) (mkL (PSOpt (a_id a)) pos vaf false) st = parse_loop pc rest (Chain.lsV pos vaf) st) /\
+  (forall a pos evaf rest st,
+     possible_subcommand pc t evaf = None -> term_at pc pos a t ->
+     shadow_step t cur pos false ValueDone evaf = SNext cur (pos + 1) false ValueDone true /\
+     parse_loop pc (t :: rest) (Chain.lsV pos evaf) st =
+     (do st' <- term_fn pc a st; parse_loop pc rest (Chain.lsV (pos + 1) true) st')) /\
+  (forall a pos k evaf rest st,
+     (is_set s_sub_precedence pc = true -> Chain.no_sub pc t) -> term_at pc pos a t ->
+     shadow_step t cur pos false (Pos pos k) evaf = SNext cur (pos + 1) false ValueDone true /\
+     parse_loop pc (t :: rest) (mkL (PSPos (a_id a)) pos evaf false) st =
+     (do st' <- term_fn pc a st; parse_loop pc rest (Chain.lsV (pos + 1) true) st')).
+Proof. exact terminator_step_agreement. Qed.
+Print Assumptions C18_terminator_step_agreement.
 
 (** the engine's positional lookup IS the parser's key-map lookup *)
 Theorem C18_find_pos_is_get_pos : forall c n, assert_app c = true -> find_pos c n = get_pos c n.
